@@ -9,7 +9,7 @@ for f in sorted(glob.glob(os.path.join(V, "seeded", "*", "meta.json"))):
     d = json.load(open(f))
     rc = d.get("recheck_on_current_tree", {})
     suffix = sid[3:]
-    rnd = {"": 1, "b": 2, "c": 3, "d": 4, "e": 5, "f": 6, "g": 7, "h": 8, "i": 9, "j": 10, "k": 11}.get(suffix, d.get("round", "?"))
+    rnd = {"": 1, "b": 2, "c": 3, "d": 4, "e": 5, "f": 6, "g": 7, "h": 8, "i": 9, "j": 10, "k": 11, "l": 12}.get(suffix, d.get("round", "?"))
     fc = bool(d.get("first_contact_caught"))
     first_yes += fc
     pr = per_round.setdefault(rnd, [0, 0]); pr[0] += fc; pr[1] += 1
